@@ -21,9 +21,11 @@ Variable rules : key -> rule.
 Variable env : key -> N.
 Variable F : key -> N -> list value -> list N -> N -> N.
 Variable rank : key -> nat.
+Variable R : key -> N -> rule.
 Variable ord : key -> list rkind.
 Hypothesis Hrank : wf_rank rules rank.
 Hypothesis Hwfd : wf_disc rules.
+Hypothesis HRt : table_ok rules R.
 Hypothesis Hord : forall k, In RReq (ord k).
 Notation cvK := (cvK rules env F rank).
 Notation bkK := (bkK rules env F rank).
@@ -31,12 +33,12 @@ Notation n1 := (n1 rules).
 Notation n2 := (n2 rules).
 Notation key_of_slot := (key_of_slot rules env F rank).
 Notation task_ok2 := (task_ok2 rules env F rank).
-Notation concl := (concl rules F).
-Notation rowok := (rowok rules F).
+Notation concl := (concl F R).
+Notation rowok := (rowok F R).
 Notation BT := (BT rules env F rank).
-Notation BC := (BC rules F).
-Notation BS := (BS rules env F rank).
-Notation BInv := (BInv rules env F rank).
+Notation BC := (BC rules F R).
+Notation BS := (BS rules env F rank R).
+Notation BInv := (BInv rules env F rank R).
 
 Lemma ri_begin_scan_hyg ri : ri_paused ri = [] -> ri_deferred ri = [] -> ri_begin_scan ri = ri_with_kind KScanning ri.
 Proof. unfold ri_begin_scan, ri_with_kind. now intros -> ->. Qed.
@@ -47,24 +49,24 @@ Lemma BInv_scan_rule root c fi fs s k : Inv rules c s -> BInv root None (unpop f
 Proof.
   intros HI HB Hfs Hpe. pose proof (sreq_scanning_unpop rules c fi fs s HI Hfs) as Hss.
   pose proof HB as (HT & HC & HS).
-  destruct (scan_rule_gen rules env s k (b_nc _ _ _ HC k)) as (b & s1 & ri1 & Esc & RI & E1 & E2 & E3 & E4 & E5 & E6 & E7 & Hout).
+  destruct (scan_rule_gen rules env s k (b_nc _ _ _ _ HC k)) as (b & s1 & ri1 & Esc & RI & E1 & E2 & E3 & E4 & E5 & E6 & E7 & Hout).
   exists b, s1. split; [exact Esc|].
   set (su := unpop fi fs s) in *. set (su1 := unpop fi fs s1).
   assert (Hsame : ri1 = rinfo_of s k -> is_toscan s1 = is_toscan s -> BInv root (if b then None else Some k) su1).
   { intros -> Ets. assert (HBf : BInv root None su1).
-    { apply (BInv_frame rules env F rank root None su su1); auto; unfold su, su1, unpop; autorewrite with iv; try congruence.
+    { apply (BInv_frame rules env F rank R root None su su1); auto; unfold su, su1, unpop; autorewrite with iv; try congruence.
       intros k'. change (rinfo_of (upd_toscan (upd_inreq s1 _) _) k') with (rinfo_of s1 k'). rewrite RI. destruct (N.eqb k' k) eqn:E; auto. apply N.eqb_eq in E. now subst. }
     destruct HBf as (A1 & A2 & A3). split; [|split]; auto. now apply BS_weaken. }
   assert (Hre : forall kd', ri1 = ri_with_kind kd' (ri_clean_single (rinfo_of s k)) -> is_scanned s k = false -> kind_of s k <> KScanning ->
             (forall rq, In rq (is_toscan su1) <-> (kd' = KScanning /\ rq = mkSReq k 0%nat None false false) \/ In rq (is_toscan su)) ->
-            (kd' = KNeedsToRun \/ (kd' = KDoesNotNeedToRun /\ bAt su k <> 0 /\ valid rules env k (res_of su k) = true /\ drop_single (deps su k) = [] /\ pending_for su k) \/
-             (kd' = KScanning /\ bAt su k <> 0 /\ valid rules env k (res_of su k) = true /\ (if b then None else Some k) = Some k)) ->
+            (kd' = KNeedsToRun \/ (kd' = KDoesNotNeedToRun /\ bAt su k <> 0 /\ valid rules env k (res_of su k) = true /\ drop_single (deps su k) = [] /\ pending_for su k /\ res_sig (res_of su k) = r_sig (rules k)) \/
+             (kd' = KScanning /\ bAt su k <> 0 /\ valid rules env k (res_of su k) = true /\ (if b then None else Some k) = Some k /\ res_sig (res_of su k) = r_sig (rules k))) ->
             BInv root (if b then None else Some k) su1).
-  { intros kd' -> Hsc Hns Hts Hcase. apply (BInv_rekind rules env F rank Hrank Hwfd root _ su su1 k kd'); auto; unfold su, su1, unpop; autorewrite with iv; try congruence.
+  { intros kd' -> Hsc Hns Hts Hcase. apply (BInv_rekind rules env F rank R Hrank Hwfd HRt root _ su su1 k kd'); auto; unfold su, su1, unpop; autorewrite with iv; try congruence.
     unfold task_of. autorewrite with iv. destruct (aget (is_tasks s) k) eqn:Eg; auto. exfalso.
     assert (Hex : aget (is_tasks s) k <> None) by congruence. apply (t_tk c s (proj1 (proj2 HI))) in Hex.
     destruct (unscanned_not_curk s k Hsc Hns) as (_ & [I1 I2] & _). unfold is_in_progress in Hex. destruct (kind_of s k); try discriminate; contradiction. }
-  destruct Hout as [(-> & Hsc & -> & Ets)|[(-> & Hk & -> & Ets)|[(-> & Hsc & Hns & -> & Ets)|[(-> & Hsc & Hns & Hb & Hv & Hd & -> & Ets)|(-> & Hsc & Hns & Hb & Hv & Hd & -> & Ets)]]]].
+  destruct Hout as [(-> & Hsc & -> & Ets)|[(-> & Hk & -> & Ets)|[(-> & Hsc & Hns & -> & Ets)|[(-> & Hsc & Hns & Hb & Hv & Hd & Hsg & -> & Ets)|(-> & Hsc & Hns & Hb & Hv & Hd & Hsg & -> & Ets)]]]].
   - split; [now apply Hsame|]. discriminate.
   - split; [now apply Hsame|]. intros _ H. contradiction.
   - split; [|discriminate]. apply (Hre KNeedsToRun); auto.
@@ -89,7 +91,8 @@ Lemma BInv_set_complete root su su1 k : BInv root None su -> sreq_scanning su ->
   is_fintasks su1 = is_fintasks su -> is_usedb su1 = is_usedb su -> is_epoch su1 = is_epoch su -> BInv root None su1.
 Proof.
   intros (HT & HC & HS) Hss Hk RI Htk Hi Hts Hf Hft Hu He.
-  destruct (b_dn _ _ _ _ _ _ HS k Hk) as ((v & Hv & Hcv & Hco) & Hdc & Hb0 & Hpe).
+  destruct (b_dn _ _ _ _ _ _ _ HS k Hk) as ((v & Hv & Hcv & Hco) & Hdc & Hb0 & Hpe & Hsg0).
+  assert (Erl : rule_of R su k = rules k) by (unfold rule_of; rewrite Hsg0; apply HRt).
   assert (HK : forall k', kind_of su1 k' = if N.eqb k' k then KComplete else kind_of su k') by (intros k'; unfold kind_of; rewrite RI; now destruct (N.eqb k' k)).
   assert (HRo : forall k', k' <> k -> res_of su1 k' = res_of su k') by (intros k' Hne; unfold res_of; rewrite RI; apply N.eqb_neq in Hne; now rewrite Hne).
   assert (Hst : forall k', stored su1 k' = stored su k') by (intros k'; unfold stored, res_of; rewrite RI; destruct (N.eqb k' k) eqn:E; [apply N.eqb_eq in E; subst|]; reflexivity).
@@ -120,8 +123,8 @@ Proof.
     + intros rq H _. now apply HU.
     + rewrite Hi, Hip. destruct (b_root _ _ _ _ _ _ HT) as [H|[(k0 & H)|[H|H]]];
         [left; exact H|right; left; exists k0; now rewrite (proj1 (HL k0))|right; right; left; exact H|right; right; right; now apply Hc1].
-  - apply (BC_kinds rules F su su1 HC); auto.
-    + intros k'. rewrite (proj2 (proj2 (HL k'))). apply (b_nc _ _ _ HC).
+  - apply (BC_kinds rules F R su su1 HC); auto.
+    + intros k'. rewrite (proj2 (proj2 (HL k'))). apply (b_nc _ _ _ _ HC).
     + intros k'. unfold idle. rewrite HK. destruct (N.eqb k' k) eqn:E; auto. apply N.eqb_eq in E. subst k'. rewrite Hk. intros _. split; discriminate.
     + intros k' H. left. now rewrite Hip.
     + intros y (rq & Hu' & H1' & H2'). left. exists rq. split; [now apply HU|auto].
@@ -129,17 +132,17 @@ Proof.
       * apply N.eqb_eq in E. subst k'. right. split; auto. split; [exact Hck|]. assert (Hidk : idle su k) by (unfold idle; rewrite Hk; split; discriminate).
         split; [exact Hidk|]. split; auto.
         assert (Hncu : ~ curk su k) by (intros [H _]; congruence).
-        destruct (b_rows _ _ _ HC k Hidk Hb0 Hncu) as (v0 & _ & _ & Hm & _).
-        destruct Hco as [_ Hrec]. cbn zeta in Hrec. unfold ImplInc1.cstruct. cbn zeta.
+        destruct (b_rows _ _ _ _ HC k Hidk Hb0 Hncu) as (v0 & _ & _ & Hm & _). rewrite Erl in Hm.
+        destruct Hco as [_ Hrec]. cbn zeta in Hrec. rewrite Erl in Hrec. unfold ImplInc1.cstruct. cbn zeta.
         assert (Hreq : map (stored su1) (r_req (rules k)) = map (stored su) (r_req (rules k))) by (apply map_ext; intros; apply Hst).
-        rewrite Hreq, Hdp. split; [|split].
+        rewrite Hreq, Hdp, Hsg. split; [exact Hsg0|]. split; [|split].
         -- intros y Hy. assert (Hin : In (mkDep y false false) (deps su k)).
            { apply Hrec. apply in_app_or in Hy. destruct Hy as [Hy|Hy]; apply in_or_app; [now left|right; apply in_or_app; now left]. }
            split; auto. apply Hc1. apply (Hdc _ Hin).
         -- intros y Hy. apply Hrec. apply in_or_app. right. apply in_or_app. now right.
         -- intros d Hd. split; [now apply Hm|left; now apply Hc1, Hdc].
       * left. split; auto. intros H. destruct (Hc2 k' H) as [->|H']; auto. rewrite N.eqb_refl in E. discriminate.
-  - apply (BS_kinds rules env F rank None None su su1 HS); auto.
+  - apply (BS_kinds rules env F rank R None None su su1 HS); auto.
     + intros k' Hks. rewrite Hba. destruct (N.eqb k' k) eqn:E; auto. apply N.eqb_eq in E. subst k'. congruence.
     + intros rq [H|[(k0 & H)|(t0 & z & Hz & H)]]; left; [left; congruence|right; left; exists k0; now rewrite <- (proj1 (proj2 (HL k0)))|right; right; exists t0, z; now rewrite <- Htask].
     + intros rq [H|[(k0 & H)|(t0 & z & Hz & H)]]; left; [left; congruence|right; left; exists k0; now rewrite <- (proj1 (proj2 (HL k0)))|right; right; exists t0, z; now rewrite <- Htask].
@@ -291,15 +294,14 @@ Proof.
       * right. left. exists k0. now rewrite (proj1 (HL k0)).
       * right. right. left. unfold is_in_progress in *. rewrite HK. destruct (N.eqb root k); auto.
       * right. right. right. now apply Hcu.
-  - apply (BC_change rules F (fun k' => N.eqb k' k) su su1); auto.
-    + intros k'. rewrite RI. destruct (N.eqb k' k); [reflexivity|apply (b_nc _ _ _ HC)].
+  - apply (BC_change rules F R (fun k' => N.eqb k' k) su su1); auto.
+    + intros k'. rewrite RI. destruct (N.eqb k' k); [reflexivity|apply (b_nc _ _ _ _ HC)].
     + intros k' E. apply N.eqb_neq in E. now apply HRo.
     + intros k' E. apply N.eqb_eq in E. subst k'. split; [unfold unsettled; rewrite Hk; repeat split; discriminate|].
-      split; [unfold is_in_progress; now rewrite HK, N.eqb_refl|]. unfold bAt. rewrite HRk. split; [reflexivity|].
-      intros Hb. apply (b_sig _ _ _ HC). exact Hb.
+      split; [unfold is_in_progress; now rewrite HK, N.eqb_refl|]. unfold bAt. rewrite HRk. reflexivity.
     + intros k' E. apply N.eqb_eq in E. subst k'. left. unfold cAt. rewrite Hst, HRk. auto.
     + intros y (rq & Hu' & H1' & H2'). left. exists rq. split; [now apply HU1|auto].
-  - apply (BS_change rules env F rank (fun k' => N.eqb k' k) None su su1); auto.
+  - apply (BS_change rules env F R rank (fun k' => N.eqb k' k) None su su1); auto.
     + intros k' E. apply N.eqb_neq in E. now apply HRo.
     + intros k' E. apply N.eqb_eq in E. subst k'. split; [unfold unsettled; rewrite Hk; repeat split; discriminate|unfold is_in_progress; now rewrite HK, N.eqb_refl].
     + intros y [H|[(k0 & H)|(t0 & z & Hz & H)]]; [left; congruence|right; left; exists k0; now rewrite <- (proj2 (HL k0))|].
@@ -365,10 +367,10 @@ Proof.
   assert (HdpC : forall k, deps s' k = deps su k \/ (deps s' k = drop_single (deps su k) /\ ~ curk s' k /\ bAt s' k = bAt su k)) by (intros; left; apply Hdp).
   assert (HdpS : forall k, kind_of su k = KScanning \/ kind_of su k = KDoesNotNeedToRun -> deps s' k = deps su k) by (intros; apply Hdp).
   assert (HK : forall k, kind_of s' k = kind_of su k) by (intros k; apply HR).
+  assert (Hsgs : forall k, res_sig (res_of s' k) = res_sig (res_of su k)) by (intros k; now rewrite (proj1 (HR k))).
   assert (Hcu : forall k, curk s' k <-> curk su k) by (intros k; apply curk_same; auto; apply HR).
   split; [|split].
   - apply (BT_rules_change_gen rules env F rank root su s' HT); auto.
-    + intros k. now rewrite (proj1 (HR k)).
     + intros k H. now apply Hcu.
     + intros k H. left. now apply Hcu.
     + intros rq H. now apply HU.
@@ -378,15 +380,14 @@ Proof.
       * assert (Hd : Unrouted su (dummy_root root)) by now right. apply HU in Hd. destruct Hd; auto.
       * right. right. left. now rewrite (in_progress_of_kind su s' root (HK root)).
       * right. right. right. now apply Hcu.
-  - apply (BC_kinds rules F su s' HC); auto.
-    + intros k. now rewrite (proj1 (HR k)).
-    + intros k. rewrite (proj2 (proj2 (HR k))). apply (b_nc _ _ _ HC).
+  - apply (BC_kinds rules F R su s' HC); auto.
+    + intros k. rewrite (proj2 (proj2 (HR k))). apply (b_nc _ _ _ _ HC).
     + intros k. unfold idle. now rewrite HK.
     + intros k H. now apply Hcu.
     + intros k H. left. now rewrite (in_progress_of_kind su s' k (HK k)).
     + intros y (rq & Hu' & H1' & H2'). left. exists rq. split; [now apply HU|auto].
     + intros k. left. split; auto. intros H. now apply Hcu.
-  - apply (BS_kinds rules env F rank x None su s' HS); auto.
+  - apply (BS_kinds rules env F rank R x None su s' HS); auto.
     + intros k H. now apply Hcu.
     + intros k. rewrite HK. intros Hk. left. split; auto. intros H. destruct (Hrec k Hk H); auto.
     + intros k. rewrite HK. intros Hk. left. split; auto.
@@ -505,13 +506,13 @@ Proof.
       * right. left. exists k. now rewrite (proj1 (HL k)).
       * right. right. left. now rewrite (in_progress_of_kind su s' root (HK root)).
       * right. right. right. now apply Hcu.
-  - apply (BC_change rules F (fun k => N.eqb k t) su s'); auto.
-    + intros k. rewrite (proj2 (proj2 (HL k))). apply (b_nc _ _ _ HC).
+  - apply (BC_change rules F R (fun k => N.eqb k t) su s'); auto.
+    + intros k. rewrite (proj2 (proj2 (HL k))). apply (b_nc _ _ _ _ HC).
     + intros k E. apply N.eqb_neq in E. now apply HRo.
     + intros k E. apply N.eqb_eq in E. subst k. split; [now apply in_progress_unsettled|]. split; [now rewrite (in_progress_of_kind su s' t (HK t))|].
-      split; [apply Hba|]. rewrite Hba, Hsgs; apply (b_sig _ _ _ HC).
+      apply Hba.
     + intros y (r & Hu' & H1' & H2'). left. exists r. split; auto. destruct (HU1 r Hu') as [->|H]; [congruence|exact H].
-  - apply (BS_change rules env F rank (fun k => N.eqb k t) None su s'); auto.
+  - apply (BS_change rules env F R rank (fun k => N.eqb k t) None su s'); auto.
     + intros k E. apply N.eqb_neq in E. now apply HRo.
     + intros k E. apply N.eqb_eq in E. subst k. split; [now apply in_progress_unsettled|now rewrite (in_progress_of_kind su s' t (HK t))].
     + intros y [H|[(k & H)|(t0 & z & Hz & H)]]; [left; congruence|right; left; exists k; now rewrite <- (proj1 (proj2 (HL k)))|].
@@ -531,6 +532,7 @@ Lemma BInv_drop_dummy root su s' rq rest : BInv root None su -> sreq_scanning su
 Proof.
   intros (HT & HC & HS) Hss Hq Hq' Et Hinp RI Htk Hts Hf Hft Hu He.
   assert (HR : forall k, res_of s' k = res_of su k) by (intros; unfold res_of; now rewrite RI).
+  assert (Hsgs : forall k, res_sig (res_of s' k) = res_sig (res_of su k)) by (intros k; now rewrite HR).
   assert (HK : forall k, kind_of s' k = kind_of su k) by (intros; unfold kind_of; now rewrite RI).
   assert (Hst : forall k, stored s' k = stored su k) by (intros k; unfold stored; now rewrite HR).
   assert (Hca : forall k, cAt s' k = cAt su k) by (intros k; unfold cAt; now rewrite HR).
@@ -542,7 +544,6 @@ Proof.
   assert (Htask : forall t, task_of s' t = task_of su t) by (intros; unfold task_of; now rewrite Htk).
   split; [|split].
   - apply (BT_rules_change rules env F rank root su s' HT); auto.
-    + intros k. now rewrite HR.
     + intros k H. now apply Hcu.
     + intros k H. left. now apply Hcu.
     + intros y [H|(k & H)]; [left; rewrite Hq; right; now rewrite <- Hq'|right; exists k; now rewrite <- RI].
@@ -553,9 +554,8 @@ Proof.
       * right. left. exists k. now rewrite RI.
       * right. right. left. now rewrite (in_progress_of_kind su s' root (HK root)).
       * right. right. right. now apply Hcu.
-  - apply (BC_kinds rules F su s' HC); auto.
-    + intros k. now rewrite HR.
-    + intros k. rewrite RI. apply (b_nc _ _ _ HC).
+  - apply (BC_kinds rules F R su s' HC); auto.
+    + intros k. rewrite RI. apply (b_nc _ _ _ _ HC).
     + intros k. unfold idle. now rewrite HK.
     + intros k H. now apply Hcu.
     + intros k H. left. now rewrite (in_progress_of_kind su s' k (HK k)).
@@ -564,7 +564,7 @@ Proof.
         subst r. rewrite H2' in Hinp. destruct Hinp as [Hp|Hp]; [right; left; now rewrite (in_progress_of_kind su s' y (HK y))|right; right; now apply Hcu].
       * left. exists r. split; [right; exists k0; now rewrite RI|auto].
     + intros k. left. split; auto. intros H. now apply Hcu.
-  - apply (BS_kinds rules env F rank None None su s' HS); auto.
+  - apply (BS_kinds rules env F rank R None None su s' HS); auto.
     + intros k H. now apply Hcu.
     + intros y [H|[(k & H)|(t0 & z & Hz & H)]]; left; [left; congruence|right; left; exists k; now rewrite <- RI|right; right; exists t0, z; now rewrite <- Htask].
     + intros y [H|[(k & H)|(t0 & z & Hz & H)]]; left; [left; congruence|right; left; exists k; now rewrite <- RI|right; right; exists t0, z; now rewrite <- Htask].
@@ -583,7 +583,7 @@ Proof.
   set (s0 := upd_inreq s rest). set (c := cx_set_fi ctx0 [rq]). set (inp := iq_input rq).
   assert (HI0 : Inv rules c s0) by (apply (Inv_pop_inreq rules ctx0 s rq rest Hq HI)).
   assert (HB0 : BInv root None (unpop [rq] [] s0)).
-  { apply (BInv_frame rules env F rank root None s); auto; unfold unpop, s0; autorewrite with iv; auto. now apply (Inv_sreq_scanning rules ctx0). }
+  { apply (BInv_frame rules env F rank R root None s); auto; unfold unpop, s0; autorewrite with iv; auto. now apply (Inv_sreq_scanning rules ctx0). }
   assert (Hpe : pending_for (unpop [rq] [] s0) inp) by (right; exists rq; split; auto; now left).
   destruct (BInv_scan_rule root c [rq] [] s0 inp HI0 HB0 (Forall_nil _) Hpe) as (b1 & s1 & E1 & HB1 & Hl1).
   unfold process_input_request. fold inp. rewrite E1.
